@@ -350,14 +350,27 @@ func c10(c *Ctx) {
 				f := mc.Fn.(*ssa.Function)
 				for _, ret := range core.Returns(f) {
 					bo, ok := ret.Results[0].(*ssa.BinOp)
-					if !ok || bo.Op != token.GTR {
+					if !ok {
 						continue
 					}
 					cc, ok := bo.X.(*ssa.Call)
-					if ok && strings.HasSuffix(core.CalleeID(cc), "enode.DistCmp") {
-						if k, isC := core.ConstInt(bo.Y); isC && k == 0 {
-							okPos = true
-						}
+					if !ok || !strings.HasSuffix(core.CalleeID(cc), "enode.DistCmp") || len(cc.Call.Args) != 3 {
+						continue
+					}
+					k, isC := core.ConstInt(bo.Y)
+					if !isC {
+						continue
+					}
+					isEntry := func(v ssa.Value) bool {
+						return core.Derives(v, func(x ssa.Value) bool { return core.IsLoadOfField(x, "nodesByDistance", "entries") }, core.DeriveOpts{ThroughCalls: true})
+					}
+					a, b := cc.Call.Args[1], cc.Call.Args[2]
+					// first entry farther from the target than the new node:
+					// DistCmp(t, entry, n) > 0   or   DistCmp(t, n, entry) < 0
+					farther := (bo.Op == token.GTR && k == 0) || (bo.Op == token.GEQ && k == 1)
+					closer := (bo.Op == token.LSS && k == 0) || (bo.Op == token.LEQ && k == -1)
+					if (farther && isEntry(a) && !isEntry(b)) || (closer && isEntry(b) && !isEntry(a)) {
+						okPos = true
 					}
 				}
 			}
